@@ -91,10 +91,10 @@ def run(replay=None):
         ck.notes['simulated_histories'] = len(sim)
         for n, h in enumerate(hs + sim + [{'start': a, 'hist': b} for a, b in LISTED]):
             key_jobs.append((h['start'], h['hist'], seed * 1000003 + n))       # one seeded instantiation per history
-        nw = 320 if thorough else 40
+        nw = (14 if thorough else 2) * len(c16_drv.WALLET_KINDS)         # every creation route, seeded witness type and calls
         for i in range(nw):
             wallet_jobs.append((seed % 100000 * 1000 + i, list(c16_drv.WALLET_KINDS[i % len(c16_drv.WALLET_KINDS)]),
-                                c16_drv.gen_wallet_history(rng, rng.randrange(10, 16))))
+                                c16_drv.gen_wallet_history(rng, rng.randrange(4, 8))))
         nd = 12 if thorough else 3
         for i in range(nd):
             for mode in ('key', 'password'):
@@ -126,7 +126,7 @@ def run(replay=None):
         return flat
 
     def drive_wallets():
-        return common.pmap(c16_drv.wallet_history, wallet_jobs, procs=8) if wallet_jobs else []
+        return common.pmap(c16_drv.wallet_history, wallet_jobs, procs=11) if wallet_jobs else []
 
     def drive_db():
         out = {}
@@ -207,6 +207,8 @@ def run(replay=None):
     if setup_errors and not ck.violations:
         raise MachineryError('wallet driver could not create %d wallets: %s' % (len(setup_errors), setup_errors[:3]))
     ck.notes['wallets_skipped_setup_failed'] = setup_errors[:5]
+    ck.notes['wallet_routes_refused_at_creation'] = sorted({'%s: %s' % ('/'.join(r['wkind']), r['refused']) for r in wres if r.get('refused')})[:8]
+    ck.notes['wallet_routes'] = sorted({r['wkind'][0] for r in wres if r['rec']['steps']})
     if not replay and not ck.violations:
         if not {'raw', 'xprv'} <= control_found:
             raise MachineryError('control run without field encryption: the scanner did not find the stored keys (%s)' % sorted(control_found))
